@@ -59,7 +59,7 @@ def sorted_symbolic(engine, it, seq, kwargs):
     inv = z3.Function(fresh_name("perm_inv"), z3.IntSort(), z3.IntSort())
     i = z3.Int(fresh_name("si"))
     rng = z3.And(0 <= i, i < n)
-    eqs = [z3.Select(a, i) == z3.Select(b, pi(i)) for a, b in zip(leaves(out.arrays), leaves(seq.arrays))]
+    eqs = [z3.Select(a, i) == z3.Select(b, pi(i) + seq.offset) for a, b in zip(leaves(out.arrays), leaves(seq.arrays))]
     ctx.assume(z3.ForAll([i], z3.Implies(rng, z3.And(0 <= pi(i), pi(i) < n, inv(pi(i)) == i, *eqs)),
                          patterns=[pi(i)]))
     ctx.assume(z3.ForAll([i], z3.Implies(rng, z3.And(0 <= inv(i), inv(i) < n, pi(inv(i)) == i)),
@@ -90,13 +90,17 @@ def genexp_parts(it, g):
     if len(node.generators) != 1:
         raise Unsupported("nested generator over a symbolic collection")
     gen = node.generators[0]
-    seq = it.as_symbolic_iterable(getattr(g, "cached_iter", None) or it.eval(gen.iter, g.fr))
+    import ast as _ast
+    enum = (isinstance(gen.iter, _ast.Call) and isinstance(gen.iter.func, _ast.Name) and gen.iter.func.id == "enumerate"
+            and len(gen.iter.args) == 1)
+    src = it.eval(gen.iter.args[0], g.fr) if enum else (getattr(g, "cached_iter", None) or it.eval(gen.iter, g.fr))
+    seq = it.as_symbolic_iterable(src)
     if not isinstance(seq, SymSeq):
         raise Unsupported("generator over a non-sequence symbolic collection")
 
     def frame_at(i):
         fr2 = Frame(g.fr.module, {}, closure=g.fr)
-        it.assign_target(gen.target, seq.get(i), fr2)
+        it.assign_target(gen.target, (S(i, "int"), seq.get(i)) if enum else seq.get(i), fr2)
         return fr2
     return seq, gen, frame_at
 
